@@ -319,6 +319,7 @@ type caseHdr struct {
 	mode, grid int
 	w, h       int
 	mask       int // observation mask: bit i = print records with tag i; 0 = all
+	rawSpans   int // 1: print the raw span structure of every row (record 11) for the span-terminal model
 }
 
 func (h caseHdr) want(tag int) bool { return h.mask == 0 || h.mask&(1<<uint(tag)) != 0 }
@@ -529,6 +530,25 @@ func (r *runner) observe() []string {
 			g, pr = st&15, st>>21
 		}
 		fmt.Fprintf(o, "10 %d %d %d %d\n", g, pr, b2i(fm), b2i(ri))
+	}
+	// raw representation of the span buffer: per row the spans as stored and the cached width
+	if r.hdr.rawSpans == 1 {
+		for which, s := range []*termemu.VerifScreen{&snap.Main, &snap.Alt} {
+			for y, row := range s.Spans {
+				fmt.Fprintf(r.out, "11 %d %d %d", which, y, len(row))
+				for _, sp := range row {
+					fmt.Fprintf(r.out, " %d %d %d %d %d %d", sp.FG, sp.BG, b2i(sp.IsText), sp.Rune, sp.Width, len(sp.Text))
+					for _, b := range sp.Text {
+						fmt.Fprintf(r.out, " %d", b)
+					}
+				}
+				c := 0
+				if y < len(s.RowCache) {
+					c = s.RowCache[y]
+				}
+				fmt.Fprintf(r.out, " %d\n", c)
+			}
+		}
 	}
 
 	// ---- direct predicates on the implementation ----
@@ -871,6 +891,9 @@ func runCases(in io.Reader, out io.Writer) {
 			r = &runner{hdr: caseHdr{id: id, mode: nums[1], grid: nums[2], w: nums[3], h: nums[4]}, out: w}
 			if len(nums) > 5 {
 				r.hdr.mask = nums[5]
+			}
+			if len(nums) > 6 {
+				r.hdr.rawSpans = nums[6]
 			}
 			fmt.Fprintf(w, "# %s\n", id)
 			r.start()
